@@ -1,6 +1,7 @@
 package main
 
 import (
+	"strconv"
 	"os"
 	"sort"
 	"fmt"
@@ -56,6 +57,19 @@ func (x *Exec) ifaceContract(m *types.Func) *Contract {
 		return c
 	}
 	return nil
+}
+
+// interiorStructAddr: the address of a (nested) struct part of a heap object, reached through fields only.
+func interiorStructAddr(a *Addr) bool {
+	if a == nil || a.kind != aStruct || len(a.path) == 0 || !isStruct(a.typ) {
+		return false
+	}
+	for _, s := range a.path {
+		if s.isIndex {
+			return false
+		}
+	}
+	return true
 }
 
 // doCall executes a call instruction. It returns true when the continuation
@@ -138,7 +152,13 @@ func (x *Exec) doCall(st *State, fr *Frame, instr ssa.Instruction, c *ssa.CallCo
 	}
 	for _, a := range c.Args {
 		av := x.val(st, a)
-		args = append(args, Val{T: x.materialize(st, av), typ: a.Type(), fn: av.fn, boxed: av.boxed})
+		arg := Val{T: x.materialize(st, av), typ: a.Type(), fn: av.fn, boxed: av.boxed}
+		if interiorStructAddr(av.addr) {
+			// a pointer to a part of a heap object keeps its location: an inlined callee and the modifies clause of a
+			// contract reach the containing object's fields, not the abstract token
+			arg.addr = av.addr
+		}
+		args = append(args, arg)
 	}
 	if callee == nil && !c.IsInvoke() {
 		fvT := x.term(st, c.Value)
@@ -369,6 +389,7 @@ func (x *Exec) havocCall(st *State, fr *Frame, name string, sig *types.Signature
 	}
 	x.note("UNSPECIFIED callee %s: all heaps havocked, result arbitrary", name)
 	x.havocAll(st)
+	x.advanceAllLogs(st, args, "", name)
 	res, _ := x.freshResult(st, sig, "r")
 	return res
 }
@@ -412,8 +433,8 @@ func (x *Exec) bindParams(c *Contract, sig *types.Signature, callee *ssa.Functio
 		if n == "" || n == "_" {
 			n = fmt.Sprintf("arg%d", i)
 		}
-		env[n] = SV{t: a.T, typ: a.typ}
-		env[fmt.Sprintf("arg%d", i)] = SV{t: a.T, typ: a.typ}
+		env[n] = SV{t: a.T, typ: a.typ, ptrTo: a.addr}
+		env[fmt.Sprintf("arg%d", i)] = SV{t: a.T, typ: a.typ, ptrTo: a.addr}
 	}
 	if c.Interface && len(args) > 0 {
 		env["this"] = SV{t: args[0].T, typ: args[0].typ}
@@ -495,9 +516,24 @@ func (x *Exec) applyContract(st *State, fr *Frame, c *Contract, name string, sig
 		x.checks = append(x.checks, &Check{Name: funcDisplayName(topFrame(fr).fn) + "/cover/before:" + short + "@" + x.pos(pos), At: st.ev, Cover: true, Fn: topFrame(fr).fn.String(), Where: x.pos(pos)})
 	}
 	x.applyModifies(st, ctx, c)
+	if c.ModAll && !c.Flags["nocallbacks"] {
+		x.advanceAllLogs(st, args, logKey(c), c.Target)
+	}
+	advanced := map[string]bool{}
 	for _, lk := range x.logsMentioned(c) {
 		if lk != logKey(c) {
 			x.advanceLog(st, lk)
+			advanced[lk] = true
+		}
+	}
+	if callee != nil && len(callee.Blocks) > 0 && x.isInTree(callee) {
+		if os.Getenv("VERIF_DEBUG_LOGS") != "" {
+			fmt.Fprintf(os.Stderr, "reachable logs of %s: %v\n", callee, x.reachableLogs(callee))
+		}
+		for _, lk := range x.reachableLogs(callee) {
+			if lk != logKey(c) && !advanced[lk] {
+				x.advanceLog(st, lk)
+			}
 		}
 	}
 	res, vs := x.freshResult(st, sig, "ret")
@@ -555,6 +591,7 @@ type ModTarget struct {
 	key  *T // for maps: single key (nil = whole map)
 	ghost string
 	glob *ssa.Global
+	all  bool // *dyn(v) with a dynamic type that is not known at the call site: everything may change
 }
 
 func (x *Exec) modTargets(ctx *EvalCtx, c *Contract, exprs []Expr) []ModTarget {
@@ -613,10 +650,35 @@ func (x *Exec) modTargets(ctx *EvalCtx, c *Contract, exprs []Expr) []ModTarget {
 			}
 		case *EUnary:
 			if v.Op == "*" {
-				p := ctx.eval(v.X)
-				pt := ctx.value(p)
+				var p SV
+				var pt T
+				if dc, ok := v.X.(*ECall); ok && dc.Fun == "dyn" && len(dc.Args) == 1 {
+					// *dyn(v): the object an interface value points to, with the dynamic type it has at this call site
+					iv := ctx.value(ctx.eval(dc.Args[0]))
+					tag := ifaceTag(iv)
+					id, err := strconv.Atoi(tag.S)
+					dt, known := typeByTag[id]
+					if err != nil || !known {
+						out = append(out, ModTarget{all: true})
+						continue
+					}
+					if _, isPtr := dt.Underlying().(*types.Pointer); !isPtr {
+						continue // a boxed non-pointer value cannot be written through
+					}
+					p = SV{t: ifacePl(iv), typ: dt}
+					pt = p.t
+				} else {
+					p = ctx.eval(v.X)
+					pt = ctx.value(p)
+				}
 				elem := deref(p.typ)
-				if isStruct(elem) {
+				if p.ptrTo != nil && interiorStructAddr(p.ptrTo) {
+					var prefix []int
+					for _, s := range p.ptrTo.path {
+						prefix = append(prefix, s.field)
+					}
+					addStructLeaves(p.ptrTo.root, p.ptrTo.rootT, prefix)
+				} else if isStruct(elem) {
 					addStructLeaves(pt, elem, nil)
 				} else if arr, ok := elem.Underlying().(*types.Array); ok {
 					out = append(out, ModTarget{heap: arrHeapName(arr.Elem()), sort: arraySort(SInt, arraySort(SInt, sortOf(arr.Elem()))), ref: &pt})
@@ -688,6 +750,12 @@ func (x *Exec) applyModifies(st *State, ctx *EvalCtx, c *Contract) {
 		return
 	}
 	targets := x.modTargets(ctx, c, c.Modifies)
+	for _, m := range targets {
+		if m.all {
+			x.havocAll(st)
+			return
+		}
+	}
 	for _, m := range targets {
 		switch {
 		case m.ghost != "":
@@ -830,6 +898,9 @@ func (x *Exec) frameGoal(st *State, top *Frame, names []string, r T) T {
 	targets := x.modTargets(ctx, c, c.Modifies)
 	byHeap := map[string][]ModTarget{}
 	for _, m := range targets {
+		if m.all {
+			return mkBool(true)
+		}
 		if m.ghost == "" && m.glob == nil {
 			byHeap[m.heap] = append(byHeap[m.heap], m)
 		}
@@ -877,6 +948,9 @@ func (x *Exec) frameCheck(st *State, fr *Frame, ctx *EvalCtx, c *Contract, pos t
 	ghostMod := map[string]bool{}
 	globMod := map[*ssa.Global]bool{}
 	for _, m := range targets {
+		if m.all {
+			return
+		}
 		if m.ghost != "" {
 			ghostMod[m.ghost] = true
 		} else if m.glob != nil {
